@@ -40,6 +40,7 @@ theorem raaFirst_false_of_noRaa {l : List Msg} (h : countRaa l = 0) : raaFirst l
     | add _ _ => exact ih (by simpa [countRaa, List.countP_cons] using h)
     | fulfill _ => exact ih (by simpa [countRaa, List.countP_cons] using h)
     | fail _ => exact ih (by simpa [countRaa, List.countP_cons] using h)
+    | fee _ => exact ih (by simpa [countRaa, List.countP_cons] using h)
 
 theorem raaFirst_snoc_raa (l : List Msg) : raaFirst (l ++ [Msg.raa]) = raaFirst l := by
   induction l with
@@ -51,6 +52,7 @@ theorem raaFirst_snoc_raa (l : List Msg) : raaFirst (l ++ [Msg.raa]) = raaFirst 
     | add _ _ => exact ih
     | fulfill _ => exact ih
     | fail _ => exact ih
+    | fee _ => exact ih
 
 /-- appending to a stream without commitment_signed -/
 theorem raaFirst_append_noCs {l : List Msg} (h : countCs l = 0) (m : List Msg) :
@@ -75,6 +77,10 @@ theorem raaFirst_append_noCs {l : List Msg} (h : countCs l = 0) (m : List Msg) :
       have h' : countCs l = 0 := by simpa [countCs, List.countP_cons] using h
       have := ih h'
       simpa [raaFirst, countRaa, List.countP_cons] using this
+    | fee _ =>
+      have h' : countCs l = 0 := by simpa [countCs, List.countP_cons] using h
+      have := ih h'
+      simpa [raaFirst, countRaa, List.countP_cons] using this
 
 theorem raaFirst_replicate (k : Nat) (l : List Msg) :
     raaFirst (List.replicate k Msg.raa ++ l) = if k ≠ 0 then hasCs l else raaFirst l := by
@@ -90,12 +96,7 @@ structure IsBatch (l : List Msg) : Prop where
   oneCs : countCs l = 1
 
 theorem IsBatch.batchOf (n : Node) (adds fu fa : List Nat) : IsBatch (batchOf n adds fu fa) := by
-  unfold Ldk.Chan.batchOf
-  refine ⟨?_, ?_⟩
-  · rw [countRaa_append, countRaa_append, countRaa_append, countRaa_mkAdds]
-    simp [countRaa, List.countP_eq_zero]
-  · rw [countCs_append, countCs_append, countCs_append, countCs_mkAdds]
-    simp [countCs, List.countP_eq_zero]
+  exact ⟨(count_batch n adds fu fa).2, (count_batch n adds fu fa).1⟩
 
 theorem IsBatch.lastBatch (n : Node) : IsBatch n.lastBatch := ⟨(count_lastBatch n).2, (count_lastBatch n).1⟩
 
@@ -133,6 +134,7 @@ where
         | add _ _ => have := ih post (by simpa [countRaa, List.countP_cons] using h); simpa [raaFirst, hasCs] using this
         | fulfill _ => have := ih post (by simpa [countRaa, List.countP_cons] using h); simpa [raaFirst, hasCs] using this
         | fail _ => have := ih post (by simpa [countRaa, List.countP_cons] using h); simpa [raaFirst, hasCs] using this
+        | fee _ => have := ih post (by simpa [countRaa, List.countP_cons] using h); simpa [raaFirst, hasCs] using this
     rw [key batch post hb.noRaa, hb.hasCs]; rfl
 
 /-! ### the basic directional invariant -/
@@ -156,6 +158,8 @@ structure Base (s : Sys) : Prop where
   /-- `resend_order`: a revoke_and_ack precedes the commitment_signed in the stream iff `b` has not yet
       seen all the revoke_and_acks the batch was built after -/
   i7 : countCs s.fullAB ≠ 0 → raaFirst s.fullAB = decide (s.b.raaRecv < s.needRaaA)
+  /-- the funder's pending fee update is Outbound, the other node's is not -/
+  wf : s.a.feeWF = true
 
 theorem Base.need {s : Sys} (hb : Base s) (hp : s.a.paused = false) :
     s.pendA ≠ [] → s.needRaaA ≤ s.a.raaSent + s.a.owesRaa := by
@@ -179,9 +183,9 @@ theorem Base.raaBound {s : Sys} (hb : Base s) (hb' : Base s.swap) : countRaa s.f
   have h3' : s.b.csSent = s.b.raaRecv + (if s.b.awaitingRaa then 1 else 0) := hb'.i3
   split at h3' <;> omega
 
-theorem Base.init (va vb : Nat) : Base (Sys.init va vb) where
-  ok := NodeOK.init va
-  ra := RaOK.init va
+theorem Base.init (va vb f0 : Nat) : Base (Sys.init va vb f0) where
+  ok := NodeOK.init va true f0
+  ra := RaOK.init va true f0
   pk := PausedOK.of_unpaused rfl
   i1 := rfl
   i2 := rfl
@@ -190,6 +194,7 @@ theorem Base.init (va vb : Nat) : Base (Sys.init va vb) where
   i5 := Nat.le_refl _
   i6 := fun h => by cases h
   i7 := fun h => absurd rfl h
+  wf := rfl
 
 /-! ### the stream under each event -/
 
@@ -197,17 +202,27 @@ theorem fullAB_commit_true {s s' : Sys} {adds fu fa : List Nat} (h : step s (.co
     s'.fullAB = s.fullAB ++ batchOf s.a adds fu fa := by
   obtain ⟨hpa, hp, n, ms, hc, e⟩ := step_commit_true h
   obtain ⟨_, _, en, ems⟩ := commit_some hc
-  subst e; subst en; subst ems
-  have hpa' : ({ s with a := ({ s.a.built adds fu fa with awaitingRaa := true, csSent := s.a.csSent + 1 } : Node), pendA := batchOf s.a adds fu fa, needRaaA := s.a.raaSent + s.a.owesRaa } : Sys).a.paused = false := hpa
+  obtain ⟨_, _, f3, _, _, _, f7, _, f9, _⟩ := built_fields s.a adds fu fa
+  have hnp : n.paused = false := by rw [en]; show (s.a.built adds fu fa).paused = false; rw [f9]; exact hpa
+  have hns : n.raaSent = s.a.raaSent := by rw [en]; exact f7
+  have hno : n.owesRaa = s.a.owesRaa := by rw [en]; exact f3
+  subst e; subst ems
+  have hpa' : ({ s with a := n, pendA := batchOf s.a adds fu fa, needRaaA := s.a.raaSent + s.a.owesRaa } : Sys).a.paused = false := hnp
   rw [Sys.fullAB_unpaused hpa', Sys.fullAB_unpaused hpa]
-  show full s.qab (batchOf s.a adds fu fa) (s.a.raaSent + s.a.owesRaa) s.a.raaSent s.a.owesRaa = _
-  rw [full_commit _ _ (IsBatch.batchOf _ _ _ _).ne_nil, hp, full_nil_pend, full_nil_pend]
+  show full s.qab (batchOf s.a adds fu fa) (s.a.raaSent + s.a.owesRaa) n.raaSent n.owesRaa = _
+  rw [hns, hno, full_commit _ _ (IsBatch.batchOf _ _ _ _).ne_nil, hp, full_nil_pend, full_nil_pend]
 
 theorem fullAB_commit_false {s s' : Sys} {adds fu fa : List Nat} (h : step s (.commit false adds fu fa) = some s') :
     s'.fullAB = s.fullAB := by
   obtain ⟨_, _, n, ms, hc, e⟩ := step_commit_false h
   obtain ⟨_, _, en, _⟩ := commit_some hc
-  subst e; subst en; rfl
+  obtain ⟨_, _, _, _, _, f6, _, f8, _, _⟩ := built_fields s.b adds fu fa
+  have hcs : n.csRecv = s.b.csRecv := by rw [en]; exact f6
+  have hra : n.raaRecv = s.b.raaRecv := by rw [en]; exact f8
+  subst e
+  show (if s.a.paused then full [] (s.a.retrans n.csRecv) s.needRaaA n.raaRecv (s.a.csRecv - n.raaRecv)
+        else full s.qab s.pendA s.needRaaA s.a.raaSent s.a.owesRaa) = _
+  rw [hcs, hra]; rfl
 
 theorem fullAB_release_true {s s' : Sys} (h : step s (.release true) = some s') : s'.fullAB = s.fullAB := by
   obtain ⟨hpa, _, hlt, e⟩ := step_release_true h
@@ -239,14 +254,8 @@ theorem fullAB_recv_true {s s' : Sys} (hb : Base s) (h : step s (.recv true) = s
   obtain ⟨hpa, m, rest, n, okb, hq, hm, e⟩ := step_recv_true h
   subst e
   refine ⟨m, rest, hq, ?_⟩
-  have hnp : n.paused = false := by
-    cases m with
-    | add _ _ => obtain ⟨_, _, en⟩ := onMsg_add hm; rw [en]; exact hpa
-    | fulfill _ => obtain ⟨_, _, en⟩ := onMsg_fulfill hm; rw [en]; exact hpa
-    | fail _ => obtain ⟨_, _, en⟩ := onMsg_fail hm; rw [en]; exact hpa
-    | cs _ => obtain ⟨en, _⟩ := onMsg_cs hm; rw [en]; exact hpa
-    | raa => obtain ⟨hr, _⟩ := onMsg_raa hm; obtain ⟨_, en⟩ := onRaa_some hr; rw [en]; exact hpa
-  have hpa' : ({ s with a := n, qba := rest, agreed := s.agreed && okb } : Sys).a.paused = false := hnp
+  have hnp : n.paused = false := by rw [onMsg_paused hm]; exact hpa
+  have hpa' : ({ s with a := n, qba := rest, agreed := s.agreed && okb, feeAgreed := s.feeAgreed && s.a.feeOk m } : Sys).a.paused = false := hnp
   rw [Sys.fullAB_unpaused hpa', Sys.fullAB_unpaused hpa]
   show full s.qab s.pendA s.needRaaA n.raaSent n.owesRaa = _
   cases m with
@@ -256,6 +265,7 @@ theorem fullAB_recv_true {s s' : Sys} (hb : Base s) (h : step s (.recv true) = s
   | add _ _ => obtain ⟨e1, e2⟩ := onMsg_sent_owes hm; rw [e1, e2]; simp
   | fulfill _ => obtain ⟨e1, e2⟩ := onMsg_sent_owes hm; rw [e1, e2]; simp
   | fail _ => obtain ⟨e1, e2⟩ := onMsg_sent_owes hm; rw [e1, e2]; simp
+  | fee _ => obtain ⟨e1, e2⟩ := onMsg_sent_owes hm; rw [e1, e2]; simp
   | raa => obtain ⟨e1, e2⟩ := onMsg_sent_owes hm; rw [e1, e2]; simp
 
 /-- `b` processes the head of the stream -/
@@ -268,7 +278,7 @@ theorem fullAB_recv_false {s s' : Sys} (hb : Base s) (h : step s (.recv false) =
     | false => rfl
     | true => have := hb.i6 hp; rw [this] at hq; cases hq
   refine ⟨m, rest, hq, hpa, ?_⟩
-  have hpa' : ({ s with b := n, qab := rest, agreed := s.agreed && okb } : Sys).a.paused = false := hpa
+  have hpa' : ({ s with b := n, qab := rest, agreed := s.agreed && okb, feeAgreed := s.feeAgreed && s.b.feeOk m } : Sys).a.paused = false := hpa
   rw [Sys.fullAB_unpaused hpa', Sys.fullAB_unpaused hpa]
   show full s.qab s.pendA s.needRaaA s.a.raaSent s.a.owesRaa = m :: full rest s.pendA s.needRaaA s.a.raaSent s.a.owesRaa
   rw [hq, full_pop]
@@ -304,11 +314,11 @@ def owedFor : Msg → List Msg
   | _ => []
 
 theorem fullAB_after_recv_true {s : Sys} (hb : Base s) (hpa : s.a.paused = false) {m : Msg} {rest : List Msg} {n : Node}
-    {okb : Bool} (ag : Bool) (hm : s.a.onMsg s.total m = some (n, okb)) :
-    ({ s with a := n, qba := rest, agreed := ag } : Sys).fullAB
+    {okb : Bool} (ag fg : Bool) (hm : s.a.onMsg s.total m = some (n, okb)) :
+    ({ s with a := n, qba := rest, agreed := ag, feeAgreed := fg } : Sys).fullAB
       = s.fullAB ++ owedFor m := by
   have hnp : n.paused = false := by rw [onMsg_paused hm]; exact hpa
-  have hpa' : ({ s with a := n, qba := rest, agreed := ag } : Sys).a.paused = false := hnp
+  have hpa' : ({ s with a := n, qba := rest, agreed := ag, feeAgreed := fg } : Sys).a.paused = false := hnp
   rw [Sys.fullAB_unpaused hpa', Sys.fullAB_unpaused hpa]
   show full s.qab s.pendA s.needRaaA n.raaSent n.owesRaa = _
   cases m with
@@ -318,28 +328,39 @@ theorem fullAB_after_recv_true {s : Sys} (hb : Base s) (hpa : s.a.paused = false
   | add _ _ => obtain ⟨e1, e2⟩ := onMsg_sent_owes hm; rw [e1, e2]; simp [owedFor]
   | fulfill _ => obtain ⟨e1, e2⟩ := onMsg_sent_owes hm; rw [e1, e2]; simp [owedFor]
   | fail _ => obtain ⟨e1, e2⟩ := onMsg_sent_owes hm; rw [e1, e2]; simp [owedFor]
+  | fee _ => obtain ⟨e1, e2⟩ := onMsg_sent_owes hm; rw [e1, e2]; simp [owedFor]
   | raa => obtain ⟨e1, e2⟩ := onMsg_sent_owes hm; rw [e1, e2]; simp [owedFor]
 
 theorem fullBA_pop_recv_true {s : Sys} (hb' : Base s.swap) {m : Msg} {rest : List Msg} (hq : s.qba = m :: rest)
-    (n : Node) (ag : Bool) : s.fullBA = m :: ({ s with a := n, qba := rest, agreed := ag } : Sys).fullBA := by
+    (n : Node) (ag fg : Bool) : s.fullBA = m :: ({ s with a := n, qba := rest, agreed := ag, feeAgreed := fg } : Sys).fullBA := by
   have hpb : s.b.paused = false := by
     cases hp : s.b.paused with
     | false => rfl
     | true => have : s.qba = [] := hb'.i6 hp; rw [this] at hq; cases hq
-  have hpb' : ({ s with a := n, qba := rest, agreed := ag } : Sys).b.paused = false := hpb
+  have hpb' : ({ s with a := n, qba := rest, agreed := ag, feeAgreed := fg } : Sys).b.paused = false := hpb
   rw [Sys.fullBA_unpaused hpb', Sys.fullBA_unpaused hpb]
   show full s.qba s.pendB s.needRaaB s.b.raaSent s.b.owesRaa = m :: full rest s.pendB s.needRaaB s.b.raaSent s.b.owesRaa
   rw [hq, full_pop]
 
 theorem fullBA_after_recv_false {s : Sys} (hb' : Base s.swap) (hpb : s.b.paused = false) {m : Msg} {rest : List Msg} {n : Node}
-    {okb : Bool} (ag : Bool) (hm : s.b.onMsg s.total m = some (n, okb)) :
-    ({ s with b := n, qab := rest, agreed := ag } : Sys).fullBA
+    {okb : Bool} (ag fg : Bool) (hm : s.b.onMsg s.total m = some (n, okb)) :
+    ({ s with b := n, qab := rest, agreed := ag, feeAgreed := fg } : Sys).fullBA
       = s.fullBA ++ owedFor m :=
-  fullAB_after_recv_true (s := s.swap) (rest := rest) hb' hpb ag hm
+  fullAB_after_recv_true (s := s.swap) (rest := rest) hb' hpb ag fg hm
 
 theorem fullAB_pop_recv_false {s : Sys} (hb : Base s) {m : Msg} {rest : List Msg} (hq : s.qab = m :: rest)
-    (n : Node) (ag : Bool) : s.fullAB = m :: ({ s with b := n, qab := rest, agreed := ag } : Sys).fullAB :=
-  fullBA_pop_recv_true (s := s.swap) (by simpa using hb) hq n ag
+    (n : Node) (ag fg : Bool) : s.fullAB = m :: ({ s with b := n, qab := rest, agreed := ag, feeAgreed := fg } : Sys).fullAB :=
+  fullBA_pop_recv_true (s := s.swap) (by simpa using hb) hq n ag fg
+
+theorem fullAB_fee_true {s s' : Sys} {f : Nat} (h : step s (.fee true f) = some s') : s'.fullAB = s.fullAB := by
+  obtain ⟨hpa, _, _, _, _, e⟩ := step_fee_true h
+  subst e
+  have hpa' : ({ s with a := { s.a with pendingFee := some (f, .outbound) } } : Sys).a.paused = false := hpa
+  rw [Sys.fullAB_unpaused hpa', Sys.fullAB_unpaused hpa]
+
+theorem fullAB_fee_false {s s' : Sys} {f : Nat} (h : step s (.fee false f) = some s') : s'.fullAB = s.fullAB := by
+  obtain ⟨_, _, _, _, _, e⟩ := step_fee_false h
+  subst e; rfl
 
 /-! ### `Base` is preserved -/
 
@@ -360,34 +381,46 @@ theorem Base.step {s s' : Sys} {e : Ev} (hb : Base s) (hb' : Base s.swap) (h : s
     · have hf := fullAB_commit_false h0
       obtain ⟨_, _, n, ms, hc, e⟩ := step_commit_false h0
       obtain ⟨_, _, en, _⟩ := commit_some hc
-      have hcs : s'.b.csRecv = s.b.csRecv := by simp only [e, en]; rfl
-      have hra : s'.b.raaRecv = s.b.raaRecv := by simp only [e, en]; rfl
+      have hcs : s'.b.csRecv = s.b.csRecv := by simp only [e, en]; exact (built_fields s.b adds fu fa).2.2.2.2.2.1
+      have hra : s'.b.raaRecv = s.b.raaRecv := by simp only [e, en]; exact (built_fields s.b adds fu fa).2.2.2.2.2.2.2.1
       have ha : s'.a = s.a := by rw [e]
       have hq : s'.qab = s.qab := by rw [e]
       have hn : s'.needRaaA = s.needRaaA := by rw [e]
       exact ⟨ha ▸ hb.ok, ha ▸ hb.ra, ha ▸ hb.pk, by rw [hcs, hf, ha]; exact hb.i1, by rw [hra, hf, ha]; exact hb.i2,
         by rw [ha]; exact hb.i3, by rw [ha]; exact hb.i4, by rw [hn, ha]; exact hb.i5, by rw [ha, hq]; exact hb.i6,
-        by rw [hf, hra, hn]; exact hb.i7⟩
+        by rw [hf, hra, hn]; exact hb.i7, ha ▸ hb.wf⟩
     · have hf := fullAB_commit_true h0
       obtain ⟨hpa, hp, n, ms, hc, e⟩ := step_commit_true h0
       obtain ⟨haw, hcom, en, ems⟩ := commit_some hc
+      obtain ⟨_, _, f3, _, _, f6, f7, f8, f9, _⟩ := built_fields s.a adds fu fa
       have hz := b5 haw
       have hbt := IsBatch.batchOf s.a adds fu fa
-      subst e; subst en; subst ems
       have h4 := hb.i4 hpa
-      refine ⟨(hb.ok.built adds fu fa).congr rfl rfl rfl rfl, (hb.ra.built hb.ok adds fu fa hcom).congr rfl rfl,
-        PausedOK.of_unpaused hpa, ?_, ?_, ?_, fun _ => h4, ?_, fun hp' => ?_, ?_⟩
+      have hncs : n.csSent = s.a.csSent + 1 := by rw [en]
+      have hnaw : n.awaitingRaa = true := by rw [en]
+      have hncr : n.csRecv = s.a.csRecv := by rw [en]; exact f6
+      have hnrs : n.raaSent = s.a.raaSent := by rw [en]; exact f7
+      have hnrr : n.raaRecv = s.a.raaRecv := by rw [en]; exact f8
+      have hno : n.owesRaa = s.a.owesRaa := by rw [en]; exact f3
+      have hnp : n.paused = false := by rw [en]; show (s.a.built adds fu fa).paused = false; rw [f9]; exact hpa
+      have hok : NodeOK n := by rw [en]; exact (hb.ok.built adds fu fa).congr rfl rfl rfl rfl
+      have hra : RaOK n := by rw [en]; exact (hb.ra.built hb.ok adds fu fa hcom).congr rfl rfl
+      subst e; subst ems
+      have hwf : n.feeWF = true := by rw [en]; exact feeWF_of rfl rfl (feeWF_built adds fu fa hb.wf)
+      refine ⟨hok, hra, PausedOK.of_unpaused hnp, ?_, ?_, ?_, fun _ => ?_, ?_, fun hp' => ?_, ?_, hwf⟩
       · rw [hf, countCs_append, hz, hbt.oneCs]
-        show s.b.csRecv + (0 + 1) = s.a.csSent + 1
+        show s.b.csRecv + (0 + 1) = n.csSent
         have := hb.i1; omega
       · rw [hf, countRaa_append, hbt.noRaa]
-        show s.b.raaRecv + (countRaa s.fullAB + 0) = s.a.csRecv
+        show s.b.raaRecv + (countRaa s.fullAB + 0) = n.csRecv
         have := hb.i2; omega
-      · show s.a.csSent + 1 = s.a.raaRecv + 1
-        have := hb.i3; rw [haw] at this; simpa using this
-      · show s.a.raaSent + s.a.owesRaa ≤ s.a.csRecv
+      · show n.csSent = n.raaRecv + (if n.awaitingRaa then 1 else 0)
+        have := hb.i3; rw [haw] at this; rw [hnaw, hncs, hnrr]; simpa using this
+      · show n.raaSent + n.owesRaa = n.csRecv
         omega
-      · exact absurd hp' (by show ¬ (s.a.paused = true); rw [hpa]; simp)
+      · show s.a.raaSent + s.a.owesRaa ≤ n.csRecv
+        omega
+      · exact absurd hp' (by show ¬ (n.paused = true); rw [hnp]; simp)
       · intro _
         rw [hf, raaFirst_append_noCs hz, hbt.hasCs, hbt.raaFirst]
         show _ = decide (s.b.raaRecv < s.a.raaSent + s.a.owesRaa)
@@ -401,26 +434,26 @@ theorem Base.step {s s' : Sys} {e : Ev} (hb : Base s) (hb' : Base s.swap) (h : s
       have hf := fullAB_release_false h0
       subst e
       exact ⟨hb.ok, hb.ra, hb.pk, by rw [hf]; exact hb.i1, by rw [hf]; exact hb.i2, hb.i3, hb.i4, hb.i5, hb.i6,
-        by rw [hf]; exact hb.i7⟩
+        by rw [hf]; exact hb.i7, hb.wf⟩
     · obtain ⟨hpa, _, _, e⟩ := step_release_true h0
       have hf := fullAB_release_true h0
       subst e
       exact ⟨hb.ok, hb.ra, hb.pk, by rw [hf]; exact hb.i1, by rw [hf]; exact hb.i2, hb.i3, hb.i4, hb.i5,
-        fun hp' => absurd hp' (by show ¬ (s.a.paused = true); rw [hpa]; simp), by rw [hf]; exact hb.i7⟩
+        fun hp' => absurd hp' (by show ¬ (s.a.paused = true); rw [hpa]; simp), by rw [hf]; exact hb.i7, hb.wf⟩
   | sendRaa x =>
     cases x
     · obtain ⟨_, _, e⟩ := step_sendRaa_false h0
       have hf := fullAB_sendRaa_false h0
       subst e
       exact ⟨hb.ok, hb.ra, hb.pk, by rw [hf]; exact hb.i1, by rw [hf]; exact hb.i2, hb.i3, hb.i4, hb.i5, hb.i6,
-        by rw [hf]; exact hb.i7⟩
+        by rw [hf]; exact hb.i7, hb.wf⟩
     · obtain ⟨hpa, ho, e⟩ := step_sendRaa_true h0
       have hf := fullAB_sendRaa_true hb hk h0
       subst e
       have h4 := hb.i4 hpa
       refine ⟨hb.ok.congr rfl rfl rfl rfl, hb.ra.congr rfl rfl, PausedOK.of_unpaused hpa, by rw [hf]; exact hb.i1,
         by rw [hf]; exact hb.i2, hb.i3, fun _ => ?_, hb.i5,
-        fun hp' => absurd hp' (by show ¬ (s.a.paused = true); rw [hpa]; simp), by rw [hf]; exact hb.i7⟩
+        fun hp' => absurd hp' (by show ¬ (s.a.paused = true); rw [hpa]; simp), by rw [hf]; exact hb.i7, feeWF_of rfl rfl hb.wf⟩
       show s.a.raaSent + 1 + (s.a.owesRaa - 1) = s.a.csRecv
       omega
   | recv y =>
@@ -443,7 +476,7 @@ theorem Base.step {s s' : Sys} {e : Ev} (hb : Base s) (hb' : Base s.swap) (h : s
       rw [hf, countCs_cons] at i7
       have i5 := hb.i5
       refine ⟨ha ▸ hb.ok, ha ▸ hb.ra, ha ▸ hb.pk, ?_, ?_, by rw [ha]; exact hb.i3, by rw [ha]; exact hb.i4,
-        by rw [hn, ha]; exact hb.i5, fun hp' => absurd (ha ▸ hp') (by rw [hpa]; simp), ?_⟩
+        by rw [hn, ha]; exact hb.i5, fun hp' => absurd (ha ▸ hp') (by rw [hpa]; simp), ?_, ha ▸ hb.wf⟩
       · rw [hbn, ha]
         cases m with
         | cs c => rw [hcnt.1]; simp only at i1; omega
@@ -451,6 +484,7 @@ theorem Base.step {s s' : Sys} {e : Ev} (hb : Base s) (hb' : Base s.swap) (h : s
         | add _ _ => rw [hcnt.1]; simp only at i1; omega
         | fulfill _ => rw [hcnt.1]; simp only at i1; omega
         | fail _ => rw [hcnt.1]; simp only at i1; omega
+        | fee _ => rw [hcnt.1]; simp only at i1; omega
       · rw [hbn, ha]
         cases m with
         | cs c => rw [hcnt.2.2.1]; simp only at i2; omega
@@ -458,6 +492,7 @@ theorem Base.step {s s' : Sys} {e : Ev} (hb : Base s) (hb' : Base s.swap) (h : s
         | add _ _ => rw [hcnt.2.2.1]; simp only at i2; omega
         | fulfill _ => rw [hcnt.2.2.1]; simp only at i2; omega
         | fail _ => rw [hcnt.2.2.1]; simp only at i2; omega
+        | fee _ => rw [hcnt.2.2.1]; simp only at i2; omega
       · intro hcs
         rw [hbn, hn]
         cases m with
@@ -474,6 +509,9 @@ theorem Base.step {s s' : Sys} {e : Ev} (hb : Base s) (hb' : Base s.swap) (h : s
           rw [hcnt.2.2.1]
           exact i7 (by simpa using hcs)
         | fail _ =>
+          rw [hcnt.2.2.1]
+          exact i7 (by simpa using hcs)
+        | fee _ =>
           rw [hcnt.2.2.1]
           exact i7 (by simpa using hcs)
     · obtain ⟨m, rest, hq, hf⟩ := fullAB_recv_true hb h0
@@ -493,7 +531,7 @@ theorem Base.step {s s' : Sys} {e : Ev} (hb : Base s) (hb' : Base s.swap) (h : s
       have i5 := hb.i5
       have i7 := hb.i7
       refine ⟨han ▸ hb.ok.onMsg hm, han ▸ hb.ra.onMsg hb.ok hm, han ▸ PausedOK.of_unpaused (by rw [hnp]; exact hpa),
-        ?_, ?_, ?_, fun _ => ?_, ?_, fun hp' => absurd (han ▸ hp') (by rw [hnp, hpa]; simp), ?_⟩
+        ?_, ?_, ?_, fun _ => ?_, ?_, fun hp' => absurd (han ▸ hp') (by rw [hnp, hpa]; simp), ?_, han ▸ feeWF_onMsg hm hb.wf⟩
       · rw [hf, hbb, han, c1, countCs_append]
         have hz : ∀ m' : Msg, countCs (match m' with | .cs _ => [Msg.raa] | _ => []) = 0 := by intro m'; cases m' <;> rfl
         rw [hz m]; omega
@@ -504,6 +542,7 @@ theorem Base.step {s s' : Sys} {e : Ev} (hb : Base s) (hb' : Base s.swap) (h : s
         | add _ _ => rw [hcnt.1]; show _ + (_ + 0) = _; omega
         | fulfill _ => rw [hcnt.1]; show _ + (_ + 0) = _; omega
         | fail _ => rw [hcnt.1]; show _ + (_ + 0) = _; omega
+        | fee _ => rw [hcnt.1]; show _ + (_ + 0) = _; omega
       · rw [han, c1]
         cases m with
         | cs c => rw [hcnt.2.2.1, hcnt.2.2.2]; exact i3
@@ -511,6 +550,7 @@ theorem Base.step {s s' : Sys} {e : Ev} (hb : Base s) (hb' : Base s.swap) (h : s
         | add _ _ => rw [hcnt.2.2.1, hcnt.2.2.2]; exact i3
         | fulfill _ => rw [hcnt.2.2.1, hcnt.2.2.2]; exact i3
         | fail _ => rw [hcnt.2.2.1, hcnt.2.2.2]; exact i3
+        | fee _ => rw [hcnt.2.2.1, hcnt.2.2.2]; exact i3
       · rw [han, c2]
         cases m with
         | cs c => rw [hcnt.1, hcnt.2.1]; omega
@@ -518,6 +558,7 @@ theorem Base.step {s s' : Sys} {e : Ev} (hb : Base s) (hb' : Base s.swap) (h : s
         | add _ _ => rw [hcnt.1, hcnt.2.1]; omega
         | fulfill _ => rw [hcnt.1, hcnt.2.1]; omega
         | fail _ => rw [hcnt.1, hcnt.2.1]; omega
+        | fee _ => rw [hcnt.1, hcnt.2.1]; omega
       · rw [hn, han]
         cases m with
         | cs c => rw [hcnt.1]; omega
@@ -525,6 +566,7 @@ theorem Base.step {s s' : Sys} {e : Ev} (hb : Base s) (hb' : Base s.swap) (h : s
         | add _ _ => rw [hcnt.1]; omega
         | fulfill _ => rw [hcnt.1]; omega
         | fail _ => rw [hcnt.1]; omega
+        | fee _ => rw [hcnt.1]; omega
       · rw [hf, hbb, hn]
         cases m with
         | cs c =>
@@ -535,6 +577,7 @@ theorem Base.step {s s' : Sys} {e : Ev} (hb : Base s) (hb' : Base s.swap) (h : s
         | add _ _ => simpa using i7
         | fulfill _ => simpa using i7
         | fail _ => simpa using i7
+        | fee _ => simpa using i7
   | disconnect =>
     have hf := fullAB_disconnect h0
     have e := step_disconnect h0
@@ -555,7 +598,7 @@ theorem Base.step {s s' : Sys} {e : Ev} (hb : Base s) (hb' : Base s.swap) (h : s
     have hn' : s.a.pause.retrans s.b.csRecv ≠ [] → s.needRaaA ≤ s.b.raaRecv + (s.a.csRecv - s.b.raaRecv) := by
       intro _; omega
     refine ⟨han ▸ hb.ok.pause hb.ra, han ▸ hb.ra.pause, han ▸ PausedOK.pause _ hb.pk, ?_, ?_, ?_,
-      fun hp' => absurd (han ▸ hp') (by rw [pause_paused_flag]; simp), by rw [hn, han, pa6]; exact i5, fun _ => hq, ?_⟩
+      fun hp' => absurd (han ▸ hp') (by rw [pause_paused_flag]; simp), by rw [hn, han, pa6]; exact i5, fun _ => hq, ?_, han ▸ feeWF_pause hb.wf⟩
     · rw [hf, hbn, han, pb6, pa5, countCs_full]
       unfold Node.retrans
       by_cases hc : s.a.pause.csSent = s.b.csRecv
@@ -586,14 +629,28 @@ theorem Base.step {s s' : Sys} {e : Ev} (hb : Base s) (hb' : Base s.swap) (h : s
       have hn : s'.needRaaA = s.needRaaA := by rw [e]
       exact ⟨ha ▸ hb.ok, ha ▸ hb.ra, ha ▸ hb.pk, by rw [hcs, hf, ha]; exact hb.i1, by rw [hra, hf, ha]; exact hb.i2,
         by rw [ha]; exact hb.i3, by rw [ha]; exact hb.i4, by rw [hn, ha]; exact hb.i5, by rw [ha, hq]; exact hb.i6,
-        by rw [hf, hra, hn]; exact hb.i7⟩
+        by rw [hf, hra, hn]; exact hb.i7, ha ▸ hb.wf⟩
     · have hf := fullAB_reest_true hb h0
       obtain ⟨n, p, hr, e⟩ := step_reest_true h0
       obtain ⟨hpa, g1, _, _, _, en, ep⟩ := reestablish_some hr
       subst e; subst en
       refine ⟨hb.ok.congr rfl rfl rfl rfl, hb.ra.congr rfl rfl, PausedOK.of_unpaused rfl, by rw [hf]; exact hb.i1,
-        by rw [hf]; exact hb.i2, hb.i3, fun _ => ?_, hb.i5, fun hp' => (by cases hp'), by rw [hf]; exact hb.i7⟩
+        by rw [hf]; exact hb.i2, hb.i3, fun _ => ?_, hb.i5, fun hp' => (by cases hp'), by rw [hf]; exact hb.i7, feeWF_of rfl rfl hb.wf⟩
       show s.b.raaRecv + (s.a.csRecv - s.b.raaRecv) = s.a.csRecv
       omega
+
+  | fee x f =>
+    cases x
+    · have hf := fullAB_fee_false h0
+      obtain ⟨_, _, _, _, _, e⟩ := step_fee_false h0
+      subst e
+      exact ⟨hb.ok, hb.ra, hb.pk, by rw [hf]; exact hb.i1, by rw [hf]; exact hb.i2, hb.i3, hb.i4, hb.i5, hb.i6,
+        by rw [hf]; exact hb.i7, hb.wf⟩
+    · have hf := fullAB_fee_true h0
+      obtain ⟨hpa, hfd, _, _, _, e⟩ := step_fee_true h0
+      subst e
+      exact ⟨hb.ok.congr rfl rfl rfl rfl, hb.ra.congr rfl rfl, PausedOK.of_unpaused hpa, by rw [hf]; exact hb.i1,
+        by rw [hf]; exact hb.i2, hb.i3, hb.i4, hb.i5, hb.i6, by rw [hf]; exact hb.i7,
+        by show ((FeeState.outbound == FeeState.outbound) == s.a.isFunder) = true; rw [hfd]; rfl⟩
 
 end Ldk.Chan
